@@ -227,6 +227,7 @@ class P(Prop):
         self.g, self.m, self.E, self.Obs, self.Track, self.np = geometry, mapping, ENUCoords, Obs, Track, numpy
         self.C = {"ENU": ENUCoords, "GEO": GeoCoords, "ECEF": ECEFCoords}
         self.projOnTrack = getattr(mapping, "__projOnTrack")
+        self._live, self._pinned = [], []
 
     # ------------------------------------------------------------------ generators
     def exhaustive_scopes(self, tier):
@@ -523,14 +524,26 @@ class P(Prop):
         return list(L)
 
     def track(self, X, Y, Z=None, coords="ENU"):
+        """A Track. Every Track object made here stays referenced until the end of the process (emptied once its case is
+        over): CPython then never gives a later track the `id` of an earlier one, so that what a case observes depends on
+        that case alone (state keyed by object identity is exercised by the "seq" cases, deterministically)."""
         C = self.C[coords]
         Z = [0.0] * len(X) if Z is None else Z
-        return self.Track([self.Obs(C(x, y, zf(z))) for x, y, z in zip(X, Y, Z)])
+        T = self.Track([self.Obs(C(x, y, zf(z))) for x, y, z in zip(X, Y, Z)])
+        self._live.append(T)
+        return T
+
+    def release(self):
+        for T in self._live:
+            T.setObsList([])
+        self._pinned += self._live
+        self._live = []
 
     def row(self, c, d, i):
         return [float(d), float(c.getX()), float(c.getY()), int(i), float(c.getZ())]
 
     def impl(self, case):
+        self.release()
         k = case["kind"]
         cont = case.get("cont", "list")
         if k == "seg":
@@ -571,8 +584,7 @@ class P(Prop):
                 elif op[0] == "app":
                     T.addObs(self.Obs(C(op[1], op[2], zf(op[3]))))
                 elif op[0] == "new":
-                    T = self.Track([self.Obs(C(T.getObs(j).position.getX(), T.getObs(j).position.getY(), T.getObs(j).position.getZ()))
-                                    for j in range(T.size())])
+                    T = self.track(T.getX(), T.getY(), T.getZ(), coords)
                 else:
                     raise ValueError(op[0])
             return {"rows": rows, "n": len(rows)}
@@ -701,13 +713,17 @@ class P(Prop):
                 return "mapOnTrack returned %d observations for %d queries" % (out["n"], len(qs))
         if k == "mapt" and out["features"] != ["dist", "edge"]:
             return "mapOnTrack output carries the features %s" % out["features"]
+        first = None
         for (X, Y, q, isflat, d, xp, yp, i, z) in self.rows_of(case, out):
             if z is not None and isflat and z != 0.0:
                 return "query %s: mapOnTrack returned a point with z = %r on a flat track" % (q, z)
             w = check_answer(X, Y, q, d, xp, yp, i)
             if w:
-                return "query %s: %s" % (q, w)
-        return None
+                # several queries may fail: report first one that is not an instance of a listed defect
+                if self.classify_one(X, Y, q, (d, xp, yp, i)) is None:
+                    return "query %s: %s" % (q, w)
+                first = first or "query %s: %s" % (q, w)
+        return first
 
     # ------------------------------------------------------------------ known findings
     def classify_one(self, X, Y, q, row):
@@ -784,6 +800,11 @@ class P(Prop):
                 if op[0] == "qt":
                     for q in op[1]:
                         yield dict(case, ops=ops[:j] + [["q"] + list(q)] + ops[j + 1:])
+            n = len(case["X"])
+            for j in range(n):
+                if n > 2 and not any(op[0] == "set" and op[1] == j for op in ops):
+                    yield dict(case, X=case["X"][:j] + case["X"][j + 1:], Y=case["Y"][:j] + case["Y"][j + 1:], Z=case["Z"][:j] + case["Z"][j + 1:],
+                               ops=[([op[0], op[1] - 1] + op[2:]) if (op[0] == "set" and op[1] > j) else op for op in ops])
             steps = self.seq_steps(case)
             if len([op for op in ops if op[0] not in ("q", "qt")]) == 0:
                 for (X, Y, Z, q) in steps:
